@@ -141,7 +141,7 @@ def shard(p):
 def run(tier, seed):
     t0 = time.time()
     bins = {k: build.build(k)["vdriver"] for k in ("dbg", "rel")}
-    n = 40000 if tier == "quick" else 1200000
+    n = 100000 if tier == "quick" else 1200000
     payloads = [{"seed": seed, "shard": i, "n": n // NCPU, "builds": ["dbg", "rel"], "bins": bins} for i in range(NCPU)]
     acc = run_shards(shard, payloads)
     return finish(PID, tier, seed, "exploration", acc, RULE, t0,
